@@ -130,6 +130,8 @@ def _from_timestamp(I, ci, secs, nsecs):
 def _format(I, ci, dt, fmt):
     cs = chars_of(fmt)
     if not all(isinstance(c, int) for c in cs):
+        if LENIENT[0]:
+            return Opaque('DelayedFormat', (peel(dt).state, list(cs)))
         raise Unsupported('symbolic strftime format')
     return Opaque('DelayedFormat', (peel(dt).state, ''.join(chr(c) for c in cs)))
 
@@ -148,9 +150,108 @@ def _now(I, ci):
 
 def render_delayed(I, v):
     ts, fmt = v.state
-    return render_strftime(I, ts, fmt)
+    if isinstance(fmt, list) or LENIENT[0]:
+        cs = fmt if isinstance(fmt, list) else [ord(c) for c in fmt]
+        if strftime_has_error(I, cs):
+            raise Panic('a Display implementation returned an error unexpectedly (chrono: invalid strftime item)')
+        if isinstance(fmt, list):
+            I.world.notes.append('strftime output of a symbolic format is opaque (panic-freedom obligations only)')
+            return [63]
+    try:
+        return render_strftime(I, ts, fmt)
+    except Unsupported:
+        if LENIENT[0]:
+            return [63]
+        raise
 
 
 @model('DateTime::with_timezone', 'DateTime::naive_utc', 'DateTime::to_utc')
 def _with_timezone(I, ci, dt, *a):
     return peel(dt)
+
+
+# ------------------------------------------------------------------ validity of arbitrary (also symbolic) strftime strings
+LENIENT = [False]     # set by harnesses that only ask "does formatting panic?": valid-but-unmodelled output becomes '?'
+_SINGLE = 'ABCDFGHIMPRSTUVWXYZabhcdefgjklmnpqrstuvwxyz+%'
+_NUMERIC = 'CGHIMSUVWYdefgjklmqsuwy'
+
+
+def _is(w, c, chars):
+    if isinstance(c, int):
+        return chr(c) in chars
+    return w.branch(z3.Or([c == ord(x) for x in chars]))
+
+
+def strftime_has_error(I, cs):
+    """mirrors chrono 0.4 StrftimeItems::parse_next_item: True when some item is Item::Error (formatting then panics)"""
+    w = I.world
+    n = len(cs)
+    i = 0
+    while i < n:
+        if not _is(w, cs[i], '%'):
+            i += 1
+            continue
+        i += 1
+        if i >= n:
+            return True
+        pad = _is(w, cs[i], '-0_')
+        alt = (not pad) and _is(w, cs[i], '#')
+        if pad or alt:
+            i += 1
+            if i >= n:
+                return True
+            if alt and not _is(w, cs[i], 'z'):
+                return True
+        spec = cs[i]
+        i += 1
+        if _is(w, spec, _SINGLE):
+            if pad and not _is(w, spec, _NUMERIC):
+                return True
+            continue
+        if _is(w, spec, ':'):
+            k = 0
+            while i < n and k < 2 and _is(w, cs[i], ':'):
+                i += 1
+                k += 1
+            if i < n and _is(w, cs[i], 'z'):
+                i += 1
+                if pad:
+                    return True
+                continue
+            return True
+        if _is(w, spec, '.'):
+            if i >= n:
+                return True
+            if _is(w, cs[i], 'f'):
+                i += 1
+            elif _is(w, cs[i], '369'):
+                i += 1
+                if i >= n or not _is(w, cs[i], 'f'):
+                    return True
+                i += 1
+            else:
+                return True
+            if pad:
+                return True
+            continue
+        if _is(w, spec, '369'):
+            if i >= n or not _is(w, cs[i], 'f'):
+                return True
+            i += 1
+            if pad:
+                return True
+            continue
+        return True
+    return False
+
+
+@model('StrftimeItems::new')
+def _strftime_items(I, ci, fmt):
+    """the item iterator, abstracted to what zerv asks of it: does it contain an Item::Error?"""
+    from models_iter import ListIter
+    cs = chars_of(fmt)
+    bad = strftime_has_error(I, cs)
+    items = [Adt('Item', 0, [Str(cs)])]
+    if bad:
+        items.append(Adt('Item', 6, []))
+    return ListIter(items, kind='StrftimeItems')
